@@ -16,6 +16,8 @@ pub struct Fixture {
 
 pub struct World {
     pub fixtures: Vec<Fixture>,
+    /// (name, path, big) of introspection results found in the repository
+    pub json_files: Vec<(String, String, bool)>,
     /// (file name, text, operation name) of the four CLI introspection documents, from /repo
     pub docs: Vec<(String, String, String)>,
 }
@@ -164,6 +166,10 @@ pub fn generate(seed: u64, w: &World, with_big: bool, with_stalls: bool) -> Valu
     // what the endpoint has to say
     let served = if rng.chance(1, 40) {
         json!({"kind": "deep"})
+    } else if !w.json_files.is_empty() && rng.chance(1, 25) {
+        // a real-world introspection result from the repository's fixtures, served byte for byte
+        let candidates: Vec<&(String, String, bool)> = w.json_files.iter().filter(|(_, _, big)| !big || with_big).collect();
+        if candidates.is_empty() { json!({"kind": "json", "text": "null"}) } else { json!({"kind": "file", "name": rng.pick(&candidates).0}) }
     } else if rng.chance(3, 4) {
         json!({"kind": "schema", "fixture": fx.name, "pretty": rng.chance(1, 3), "errors": rng.chance(1, 8), "extensions": rng.chance(1, 8), "bare": rng.chance(1, 10)})
     } else {
@@ -325,6 +331,7 @@ pub fn body_bytes(spec: &Value, served_json: &dyn Fn(&Value) -> Vec<u8>) -> Vec<
     match spec["kind"].as_str().unwrap_or("") {
         "schema" => served_json(spec),
         "json" => spec["text"].as_str().unwrap_or("null").as_bytes().to_vec(),
+        "file" => served_json(spec),
         // valid JSON nested 100 levels deep (well inside what the shipped tool accepts)
         "deep" => {
             let mut s = String::new();
